@@ -1,4 +1,4 @@
-import QipVerif.Lemmas.QasmImportRej
+import QipVerif.Lemmas.QasmImportFaithful
 import QipVerif.Lemmas.QasmMat2
 /-!
 # C04 — imported OpenQASM 2.0 programs mean what the standard says
@@ -15,6 +15,19 @@ property on the remaining class.
 -/
 namespace QipVerif.C04
 open QipVerif.Qasm QipVerif.Qasm.Import Matrix
+
+/-- binary digits of `v`, most significant first (`"{0:#b}".format(v)[2:]`) -/
+def binDigits : Nat → Nat → List Nat
+  | 0, _ => []
+  | f + 1, v => if v < 2 then [v] else binDigits f (v / 2) ++ [v % 2]
+
+/-- the simulator's test of a classically controlled gate (`_check_classical_control_value`):
+the digits of the value, left-padded with zeros to the number of controls, are compared with the
+listed bits **in order** (first listed bit against the most significant digit) -/
+def simFires (cc : List Nat) (v : Nat) (st : Nat → Bool) : Bool :=
+  let b := binDigits (v + 1) v
+  let conds := List.replicate (cc.length - b.length) 0 ++ b
+  (cc.zip conds).all fun (bit, d) => (if st bit then 1 else 0) == d
 
 /-! ### The shortcuts of the importer are the standard's gates -/
 
@@ -82,6 +95,44 @@ theorem signatures_agree :
     ∀ d ∈ qelib1, Import.sigOf d.name = some (d.params.length, d.qargs.length) := by decide
 
 example : Import.sigOf cs!"U" = some (3, 1) ∧ Import.sigOf cs!"CX" = some (0, 2) := by decide
+
+/-! ### The imported gate list is the one the standard prescribes (class W₀) -/
+
+/-- **Refinement (partial: class `W0`).**  For every program of the class W₀ — header,
+`include "qelib1.inc"`, register declarations (quantum registers non-empty), then any number of
+`U`, `CX`, `qelib1.inc` calls, `measure`, `barrier` and `if(c==k)`-conditioned gate statements
+with any mix of indexed and whole-register arguments and parameter expressions over `pi`,
+literals, `+ - * /` and unary minus (no literal zero divisor), no user gate definition — that the
+standard's static semantics accepts (`flatten p = ok (env, fl)`), the importer model returns
+`ok` with registers of the standard's sizes and **exactly** the gate list `fl.flatMap gatesOf`:
+for every flat operation of the standard (every broadcast instance, same qubits, same parameter
+expressions, same condition bits and value) the library gate of `shortcut_rows`, in order.
+Together with `shortcut_sound` each of these gates is the standard's expansion up to a phase;
+for the condition see `cond_onebit` and the counter-examples below. -/
+theorem import_faithful_partial (p : Program) (hw : W0 p) (env : Env) (fl : List FlatOp)
+    (h : flatten p = .ok (env, fl)) :
+    importProgram p = .ok (env.qregs.total, env.cregs.total, fl.flatMap gatesOf) :=
+  import_refines p hw env fl h
+
+private def w0Example : Program :=
+  [.version, .incl cs!"qelib1.inc", .qreg cs!"q" 2, .qreg cs!"r" 2, .creg cs!"c" 1,
+   .qop (.call cs!"cu1" [.div .pi (.lit cs!"2")] [.whole cs!"q", .whole cs!"r"]),
+   .barrier [.whole cs!"q"],
+   .ifc cs!"c" 1 (.call cs!"rx" [.neg (.mul (.lit cs!"0.5") .pi)] [.idx cs!"r" 1]),
+   .qop (.measure (.idx cs!"q" 0) (.idx cs!"c" 0))]
+
+/-- the class is not empty: broadcast, a condition, a barrier, a measurement — and the standard
+accepts the program -/
+example : W0 w0Example ∧ (∃ r, flatten w0Example = .ok r) := by
+  refine ⟨⟨⟨[.qreg cs!"q" 2, .qreg cs!"r" 2, .creg cs!"c" 1], _, rfl, by decide, by decide⟩, by decide⟩,
+    ⟨_, rfl⟩⟩
+
+/-- on a one-bit register the simulator's test of `classical_controls = [b]`, value `k` is the
+standard's condition `c == k` -/
+theorem cond_onebit (b k : Nat) (st : Nat → Bool) (hk : k < 2) :
+    simFires [b] k st = Cond.holds ⟨[b], k⟩ st := by
+  have : k = 0 ∨ k = 1 := by omega
+  rcases this with rfl | rfl <;> cases h : st b <;> simp [simFires, binDigits, Cond.holds, leValue, h]
 
 /-! ### Rejections -/
 
@@ -160,19 +211,6 @@ theorem import_substitution_witnesses :
   ⟨rfl, rfl⟩
 
 /-! ### Counter-examples to the unrestricted statement (recorded findings) -/
-
-/-- binary digits of `v`, most significant first (`"{0:#b}".format(v)[2:]`) -/
-def binDigits : Nat → Nat → List Nat
-  | 0, _ => []
-  | f + 1, v => if v < 2 then [v] else binDigits f (v / 2) ++ [v % 2]
-
-/-- the simulator's test of a classically controlled gate (`_check_classical_control_value`):
-the digits of the value, left-padded with zeros to the number of controls, are compared with the
-listed bits **in order** (first listed bit against the most significant digit) -/
-def simFires (cc : List Nat) (v : Nat) (st : Nat → Bool) : Bool :=
-  let b := binDigits (v + 1) v
-  let conds := List.replicate (cc.length - b.length) 0 ++ b
-  (cc.zip conds).all fun (bit, d) => (if st bit then 1 else 0) == d
 
 /-- `creg c[2]; if(c==1) x q[0];` — the importer lists the bits `[c[0], c[1]]` with value 1; the
 simulator then fires on `c[0]=0, c[1]=1`, whereas the standard's condition (bit 0 is `c[0]`)
